@@ -104,6 +104,7 @@ def C04(chk):
     profiles_mc(chk, "case-nfc", ["A", "e", "acute", "Eac", "angst", "Sig", "dotI", "cedil", "ypo"], n, profs, ops, insts)
     profiles_mc(chk, "nfc-bidi", ["heb", "hpt", "a", "d1", "aid", "eaid", "arab", "fatha", "dot"], n, profs, ops, insts)
     profiles_mc(chk, "context-case", ["l", "mdot", "A", "grk", "GRK", "keraia", "ZWJ", "vir", "deva"], n, profs, ops, insts)
+    apply_l1(chk, ["wm", "lc1", "lc3", "bidi"], nontrivial_key="runs")
     l3_run(chk, "usernames", strings=500 if q else 6000, per_string=4, kinds=["enforce", "enforce", "prepare"], profiles=profs)
     chk.cov["exhaustive"] = True
     chk.cov["rule"] = ("every string of length <= %d over four 9-role alphabets (width x validation x case, case x NFC, NFC x bidi, "
@@ -118,7 +119,8 @@ def C05(chk):
     n = 3 if q else 4
     insts = (0, 1) if q else (0, 1, 2, 3)
     ops = ["prepare", "enforce", "additional_mapping_rule", "normalization_rule"]
-    profiles_mc(chk, "opq-spaces", ["a", "A", "SP", "NBSP", "OGH", "ISP", "EQD", "EMSP", "TAB"], n, ["OPQ"], ops, insts)
+    profiles_mc(chk, "opq-spaces", ["a", "A", "SP", "NBSP", "OGH", "ISP", "EQD", "EMSP", "TAB", "DEL"], n, ["OPQ"], ops, insts)
+    profiles_mc(chk, "opq-hangul", ["jamo", "jamoV", "jamoT", "hsyl", "hcj", "a", "NBSP"], n, ["OPQ"], ops, insts)
     profiles_mc(chk, "opq-compat", ["a", "FWA", "rom4", "e", "acute", "angst", "emo", "NBSP", "diaer"], n, ["OPQ"], ops, insts)
     apply_l1(chk, ["osp"], nontrivial_key="zs")
     l3_run(chk, "opaque", strings=500 if q else 6000, per_string=3, kinds=["enforce", "enforce", "prepare", "additional_mapping_rule"], profiles=["OPQ"])
@@ -136,6 +138,7 @@ def C06(chk):
     ops = ["prepare", "enforce"]
     profiles_mc(chk, "nick-spaces", ["a", "A", "SP", "NBSP", "ISP", "diaer", "EMSP", "OGH"], n + 1, ["NICK"], ops, insts)
     profiles_mc(chk, "nick-compat", ["a", "rom4", "hcj", "eac", "han", "emo", "FWA", "SP", "diaer"], n, ["NICK"], ops, insts)
+    profiles_mc(chk, "nick-hangul", ["jamo", "jamoV", "hsyl", "jamoT", "hcj", "a", "OGH", "SP"], n, ["NICK"], ops, insts)
     profiles_mc(chk, "nick-nfkc", ["e", "acute", "Eac", "cedil", "SP", "rom4", "angst", "hy"], n, ["NICK"], ops, insts)
     l3_run(chk, "nickname", strings=500 if q else 6000, per_string=3, kinds=["enforce", "enforce", "prepare"], profiles=["NICK"], max_len=10)
     chk.cov["exhaustive"] = True
@@ -263,7 +266,9 @@ def C02(chk):
                {"MaxLen": n - 1 if q else n - 1, "Rules": tla_set(["zwj"])}, CTX_INVS, insts)
     generic_mc(chk, "MC_Context", "contextual", ["ZWNJ", "ZWJ", "vir", "fatha", "arab", "mdot", "l", "aid", "eaid", "TAB"],
                {"MaxLen": n, "Rules": "{}"}, CTX_INVS, insts)
-    apply_l1(chk, ["reg"], nontrivial_key="ctx")
+    generic_mc(chk, "MC_StringClass", "user-class-digits", ["aid", "eaid", "a", "mdot", "l", "kmdot", "hira"],
+               {"MaxLen": 4 if q else 5, "FreeSyms": lambda ch: "{%d, %d}" % (ch["eaid"], ch["kmdot"])}, sc_invs, (0,))
+    apply_l1(chk, ["reg", "id", "ff", "vir", "greek", "hebrew", "kana", "ld", "rd"], nontrivial_key="ctx")
     l3_run(chk, "allows", strings=600 if q else 8000, per_string=2, kinds=["allows"])
     chk.cov["exhaustive"] = True
     chk.cov["rule"] = ("user-supplied classes: every assignment of the 7 property values to %d free multi-byte symbols x every label of "
@@ -283,6 +288,8 @@ def C07(chk):
     generic_mc(chk, "MC_Compare", "case-width-space", ["a", "A", "FWA", "SP", "NBSP", "ypo", "TAB"], {"MaxLen": 2, "Profs": profs}, invs_t, insts,
                harness_args=["--forms"])
     generic_mc(chk, "MC_Compare", "normalization", ["e", "acute", "Eac", "angst", "rom4", "dotI", "diaer"], {"MaxLen": 2, "Profs": profs}, invs_t, insts,
+               harness_args=["--forms"])
+    generic_mc(chk, "MC_Compare", "sigma", ["Sig", "GRK", "grk", "a", "A", "SP"], {"MaxLen": n, "Profs": profs}, invs, (0,),
                harness_args=["--forms"])
     generic_mc(chk, "MC_Compare", "rtl", ["heb", "hpt", "aid", "d1", "a", "SP"], {"MaxLen": n, "Profs": profs}, invs, (0,),
                harness_args=["--forms"])
